@@ -113,7 +113,7 @@ class DensityInversion(Case):
 
 class PressureIncreasing(Case):
     """requires a series without missing values (the function documents none) and a non-zero
-    mean step (the profile's overall direction is undefined otherwise)"""
+    mean step, i.e. last != first (the profile's overall direction is undefined otherwise)"""
 
     module = "ioos_qc.argo"
     function = "pressure_increasing_test"
@@ -124,35 +124,33 @@ class PressureIncreasing(Case):
         e = Env()
         e.n = mk.length("n", lo=2)
         e.x = mk.series("x", e.n, missing=False)
+        e.mode = mk.mode
+        e.dtype = mk.values.get("dtype") if mk.mode != "sym" else None
         return e
 
     def call(self, mod, e):
-        return mod.pressure_increasing_test(e.x)
+        x = e.x
+        if e.mode == "real" and e.dtype:
+            # the same pressures as an integer array ("a numeric numpy array"): the model's integers are
+            # mathematical, so a wrap-around of the real run shows up as a conformance mismatch
+            import numpy as np
+
+            x = np.asarray(x).astype(e.dtype)
+        return mod.pressure_increasing_test(x)
 
     def post(self, e, res, k):
-        # the direction is the sign of the mean step, an uninterpreted statistic (numpy.mean);
-        # it is read back from the run (ghost) and required to be non-zero
-        mean = self._mean(e, res)
+        # the profile's overall direction: the sign of the mean step, i.e. of (last - first) / (n - 1);
+        # stated on the inputs alone (not on whatever statistic the code happens to compute) and
+        # required to be non-zero
+        d = alg.sub(e.x.val(alg.sub(e.n, 1)), e.x.val(0))
         km = alg.sub(k, 1)
         step = alg.sub(e.x.val(k), e.x.val(km))
-        if mean is None:
-            return {"suspect_iff_not_advancing": False}
-        up = alg.gt(mean, 0)
+        up = alg.gt(d, 0)
         notadv = alg.and_(alg.ge(k, 1), alg.ite(up, alg.le(step, 0), alg.ge(step, 0)))
         fl = res.flag(k)
-        out = {"suspect_iff_not_advancing": alg.implies(alg.ne(mean, 0), alg.eq(fl, alg.ite(notadv, S, G)))}
+        out = {"suspect_iff_not_advancing": alg.implies(alg.ne(d, 0), alg.eq(fl, alg.ite(notadv, S, G)))}
         out.update(basic_shape_clauses(res, k, e.n))
         return out
-
-    def _mean(self, e, res):
-        st = getattr(res, "stats", None)
-        if st:
-            return st[0].value.val
-        n = alg.as_concrete(e.n)
-        if n is None:
-            return None
-        # concrete reading: the mean step is (last - first) / (n - 1)
-        return alg.rdiv(alg.sub(e.x.val(n - 1), e.x.val(0)), n - 1)
 
     def post_global(self, e, res):
         return {"one_flag_per_element": alg.eq(res.n, e.n) if res.is_array else False}
@@ -160,6 +158,10 @@ class PressureIncreasing(Case):
     def grid(self, tier, rng):
         for xs in series_grid(4 if tier == "quick" else 5, alphabet=(-2, 0, 1, 3, 3.5), minn=2):
             yield {"n": len(xs), "x": list(xs)}
+        for xs in series_grid(4 if tier == "quick" else 5, alphabet=(0, 1, 3, 100, 200), minn=2):
+            yield {"n": len(xs), "x": list(xs), "dtype": "uint8"}
+        for xs in series_grid(3 if tier == "quick" else 4, alphabet=(-100, -2, 0, 3, 100), minn=2):
+            yield {"n": len(xs), "x": list(xs), "dtype": "int8"}
 
 
 def cases():
